@@ -628,6 +628,14 @@ def rule_zero_intolerant(chk, rid):
             if not ok:
                 chk.violation(rid, b.file, b.name, "%s by constant zero" % what, "%s with a zero constant" % what, detail=d, loc=d["at"])
             continue
+        ol_ = op_local(op)
+        if ol_ is not None:
+            srcs_ = flow_sources(b, ol_, pass_through=lambda c: True)
+            if not any(x[0] in ("arg", "upvar") for x in srcs_) and b.kind != "closure":
+                # computed from constants and argument-less calls only (e.g. a cipher's block_size()): no input can make it zero
+                d["discharged_by"] = "operand does not depend on any argument of the function (type-level / constant-derived value)"
+                chk.instance(rid, d, ok=True)
+                continue
         if what.startswith("shift"):
             # a comparison against an upper bound does not bound `width - x`; accept only masked amounts
             masked = False
